@@ -263,6 +263,8 @@ class ConstFold:
                 self.ev(e.slice.lower) if e.slice.lower else None,
                 self.ev(e.slice.upper) if e.slice.upper else None,
                 self.ev(e.slice.step) if e.slice.step else None)
+            if isinstance(base, list):
+                base = tuple(base)
             if isinstance(base, (str, tuple)) and isinstance(idx, (int, slice)):
                 return base[idx]
             raise AnalysisError("cannot fold subscript %s" % norm(e))
@@ -489,6 +491,10 @@ class IntEval:
             raise AnalysisError("IntEval: call %s" % k)
         if isinstance(e, ast.Tuple):
             return tuple(self.ev(x, st) for x in e.elts)
+        if isinstance(e, ast.Subscript) and not isinstance(e.slice, ast.Slice):
+            base, idx = self.ev(e.value, st), self.ev(e.slice, st)
+            if isinstance(base, (tuple, str, range)) and isinstance(idx, int) and not isinstance(idx, bool):
+                return base[idx]      # IndexError propagates to the caller
         raise AnalysisError("IntEval: expression %s" % k)
 
     def run(self, stmts, st=None):
